@@ -31,12 +31,17 @@ CHECK = {
    {'pkg': 'c09', 'run': 'TestNodeMutations|TestNodeShortStrings|TestAggregateCommitEnumerated|TestSyncClientE2E|TestDownloaderTerminates', 'timeout': 900},
    {'pkg': 'c09', 'run': 'TestCryptoEnumerated|TestProofsEnumerated', 'timeout': 900},
    {'pkg': 'c09', 'run': 'TestRandomMutations|TestRandomBytes|TestStructuredRandom', 'checks': 30000, 'timeout': 900},
+   # envelope level over real connections (victim node in a child process) / sync downloads against hostile well-formed peers
+   {'pkg': 'c09', 'run': 'TestWireEnvelopes|TestWireRandom', 'checks': 120, 'timeout': 900},
+   {'pkg': 'c09', 'run': 'TestDownloaderHostilePeers|TestDownloaderRandomPeer', 'checks': 60, 'timeout': 900},
  ],
  'thorough': [
    {'pkg': 'c09', 'run': 'TestDecodeMutations|TestDecodeShortStrings|TestRegress|^Fuzz', 'shards': 16, 'timeout': 2400},
    {'pkg': 'c09', 'run': 'TestNodeMutations|TestNodeShortStrings|TestAggregateCommitEnumerated|TestSyncClientE2E|TestDownloaderTerminates', 'shards': 4, 'timeout': 2400},
    {'pkg': 'c09', 'run': 'TestCryptoEnumerated|TestProofsEnumerated', 'shards': 2, 'timeout': 2400},
    {'pkg': 'c09', 'run': 'TestRandomMutations|TestRandomBytes|TestStructuredRandom', 'checks': 600000, 'shards': 10, 'timeout': 2400},
+   {'pkg': 'c09', 'run': 'TestWireEnvelopes|TestWireRandom', 'checks': 2500, 'shards': 2, 'timeout': 2400},
+   {'pkg': 'c09', 'run': 'TestDownloaderHostilePeers|TestDownloaderRandomPeer', 'checks': 500, 'shards': 2, 'timeout': 2400},
    # native coverage-guided campaigns (one at a time, all cores); a crasher becomes a VIOLATION with the input as replay file
    {'pkg': 'c09', 'fuzz': 'FuzzDecoders', 'fuzztime': '75s', 'timeout': 600},
    {'pkg': 'c09', 'fuzz': 'FuzzNewBlock', 'fuzztime': '45s', 'timeout': 600},
@@ -47,5 +52,5 @@ CHECK = {
    {'pkg': 'c09', 'fuzz': 'FuzzGossipEnvelope', 'fuzztime': '30s', 'timeout': 600},
    {'pkg': 'c09', 'fuzz': 'FuzzResponseEnvelope', 'fuzztime': '30s', 'timeout': 600},
  ],
- 'replay': [{'pkg': 'c09', 'run': 'TestReplayCase|TestRandomMutations|TestRandomBytes|TestStructuredRandom', 'checks': 1, 'timeout': 900}],
+ 'replay': [{'pkg': 'c09', 'run': 'TestReplayCase|TestReplayDownload|TestRandomMutations|TestRandomBytes|TestStructuredRandom|TestWireRandom|TestDownloaderRandomPeer', 'checks': 1, 'timeout': 900}],
 }
